@@ -75,6 +75,8 @@ type State struct {
 	Reach Term
 	Heap  map[string]Term
 	Epoch int
+	// Locals: refs of non-escaping local allocations made on every path to this point
+	Locals []Term
 }
 
 func (s *State) clone() *State {
@@ -82,7 +84,7 @@ func (s *State) clone() *State {
 	for k, v := range s.Heap {
 		h[k] = v
 	}
-	return &State{Reach: s.Reach, Heap: h, Epoch: s.Epoch}
+	return &State{Reach: s.Reach, Heap: h, Epoch: s.Epoch, Locals: append([]Term{}, s.Locals...)}
 }
 
 type loopInfo struct {
@@ -111,6 +113,7 @@ type callSite struct {
 	res     Val
 	args    []Val
 	ordinal int
+	postSt  *State // state right after the call (for at(label, e))
 }
 
 // FnVC generates the obligations of one function.
@@ -171,6 +174,11 @@ type FnVC struct {
 	returns         []retRec
 	placeholders    map[string]*callSite
 	acOrd           map[*spec.AtCall]map[token.Pos]int
+	localRefs       []Term // refs of non-escaping local allocations
+	epochPrev       map[int]epochOrigin
+	// preserveLocalsOnHavoc is set while a *call* is havocked (callees cannot touch non-escaping locals);
+	// it is off for loop-head havoc, where the loop body itself may write them.
+	preserveLocalsOnHavoc bool
 }
 
 func (f *FnVC) warn(format string, a ...any) {
@@ -198,9 +206,23 @@ func (f *FnVC) epochTerm(epoch int, name, sort string) Term {
 	}
 	// a fresh unconstrained constant: the version of this component at the start of the epoch
 	t := f.SC.Declare(fmt.Sprintf("H%d_%s", epoch, name), sort)
+	// memory of the function's non-escaping locals survives a havoc-everything (no callee can reach it)
+	if pe, ok := f.epochPrev[epoch]; ok && strings.HasPrefix(sort, "(Array Int ") && len(pe.locals) > 0 {
+		prev := f.comp(pe.st, name, sort)
+		cur := t
+		for _, r := range pe.locals {
+			cur = store(cur, r, sel(prev, r))
+		}
+		t = f.SC.Define(fmt.Sprintf("H%d_%s", epoch, name), cur)
+	}
 	m[name] = t
 	f.heapSort[name] = sort
 	return t
+}
+
+type epochOrigin struct {
+	st     *State
+	locals []Term
 }
 
 func (f *FnVC) comp(st *State, name, sort string) Term {
@@ -232,7 +254,14 @@ func (f *FnVC) havocAll(st *State) {
 			keep[k] = f.comp(st, k, heldSort())
 		}
 	}
+	prev := st.clone()
 	f.nEpoch++
+	if f.epochPrev == nil {
+		f.epochPrev = map[int]epochOrigin{}
+	}
+	if f.preserveLocalsOnHavoc {
+		f.epochPrev[f.nEpoch] = epochOrigin{st: prev, locals: prev.Locals}
+	}
 	st.Epoch = f.nEpoch
 	st.Heap = keep
 }
@@ -614,6 +643,23 @@ func (f *FnVC) mergeStates(es []edge) *State {
 		conds = append(conds, e.cond)
 	}
 	st := &State{Reach: f.SC.Define("reach", or(conds...)), Heap: map[string]Term{}, Epoch: es[0].state.Epoch}
+	for _, l := range es[0].state.Locals {
+		inAll := true
+		for _, e := range es[1:] {
+			found := false
+			for _, m := range e.state.Locals {
+				if m.S == l.S {
+					found = true
+				}
+			}
+			if !found {
+				inAll = false
+			}
+		}
+		if inAll {
+			st.Locals = append(st.Locals, l)
+		}
+	}
 	sameEpoch := true
 	for _, e := range es {
 		if e.state.Epoch != st.Epoch {
